@@ -103,6 +103,23 @@ func plainGen(t *rapid.T, max int) []byte {
 	return g.BytesLen(n).Draw(t, "plain")
 }
 
+// disturb makes successful and failing calls with other plaintexts of other lengths: whatever an
+// earlier call returned must not change because of them (pooled or aliased buffers).
+func disturb(n int) {
+	for _, l := range []int{n, n + 13, 3} {
+		other := bytes.Repeat([]byte{0xA5}, l)
+		if e, err := cryptz.Encrypt(other, "disturb"); err == nil {
+			cryptz.Decrypt(e, "disturb")
+			cryptz.Decrypt(e, "another secret")
+		}
+		if e, err := cryptz.GCMEncrypt(other, "disturb", "aad"); err == nil {
+			cryptz.GCMDecrypt(e, "disturb", "aad")
+			cryptz.GCMDecrypt(e, "disturb", "other aad")
+			cryptz.GCMDecrypt(e, "another secret", "aad")
+		}
+	}
+}
+
 // ---------------------------------------------------------------- CBC: round trip + format + interop
 
 type cbcCase struct {
@@ -186,9 +203,14 @@ func runCBC(c cbcCase, r *pb.Rec) error {
 	}
 	// (b) a message built independently (drawn salt) is accepted
 	msg := base64.StdEncoding.EncodeToString(refEncryptCBC(c.Plain, c.Secret, c.Salt))
-	dec, err = cryptz.Decrypt(msg, c.Secret)
-	if err != nil || !bytes.Equal(dec, c.Plain) {
-		return fmt.Errorf("Decrypt(reference message) = %x, %v want %x", dec, err, c.Plain)
+	dec2, err := cryptz.Decrypt(msg, c.Secret)
+	if err != nil || !bytes.Equal(dec2, c.Plain) {
+		return fmt.Errorf("Decrypt(reference message) = %x, %v want %x", dec2, err, c.Plain)
+	}
+	// results handed out earlier are the caller's: later calls must not change them
+	disturb(len(c.Plain))
+	if !bytes.Equal(dec, c.Plain) || !bytes.Equal(dec2, c.Plain) || string(enc) != encKeep {
+		return fmt.Errorf("a result returned earlier by Encrypt/Decrypt changed after later calls: dec=%x dec2=%x want %x", dec, dec2, c.Plain)
 	}
 	r.ClassIf(len(c.Plain)%16 == 0, "block-aligned plaintext")
 	r.ClassIf(len(c.Secret) == 0, "empty secret")
@@ -384,9 +406,17 @@ func runGCM(c gcmCase, r *pb.Rec) error {
 		// interop: independently built message
 		a2, n2 := refGCM(c.Secret, c.Salt)
 		m2 := hex.EncodeToString(append(append([]byte("Salted__"), c.Salt...), a2.Seal(nil, n2, c.Plain, c.AAD)...))
-		if dec2, e2 := cryptz.GCMDecrypt(m2, c.Secret, c.AAD); e2 != nil || !bytes.Equal(dec2, c.Plain) {
+		dec2, e2 := cryptz.GCMDecrypt(m2, c.Secret, c.AAD)
+		if e2 != nil || !bytes.Equal(dec2, c.Plain) {
 			return fmt.Errorf("GCMDecrypt(reference message) = %x, %v", dec2, e2)
 		}
+		// results handed out earlier are the caller's: later calls (other plaintexts, rejected messages) must not change them
+		encKeep := string(enc)
+		disturb(len(c.Plain))
+		if !bytes.Equal(dec, c.Plain) || !bytes.Equal(dec2, c.Plain) || string(enc) != encKeep {
+			return fmt.Errorf("a result returned earlier by GCMEncrypt/GCMDecrypt changed after later calls: dec=%x dec2=%x want %x", dec, dec2, c.Plain)
+		}
+		r.Class("earlier results re-read after later calls")
 	case 5:
 		// garbage: must agree with the reference decoder (error, or — astronomically unlikely — the same plaintext)
 		ok := false
